@@ -46,6 +46,7 @@ func main() {
 		Rule: "one evaluation = one scenario (energy rows of 3..12 slots with positive / negative / sentinel(2) / unparsable(3) readings appearing in 1..3 groups, " +
 			"per-datagram fates drop/deliver/dup/delay, 0..2 faulty sync rounds with per-connection fates refuse/reset/short/garble/pass, 0..2 decoy map entries, optional rotation or restart, one fault-free round) judged by the oracle; " +
 			"'dense' scenarios: 16..40 consecutive slots starting at a multiple of 8 of the window (or +1/+7), all originals delivered except the slot right after one or two completely received bitfield bytes and a few others, optionally one lost row rewritten by the meter after it was reported; " +
+			"'cutoff' scenarios: 500..600 missing slots older than the acceptance range (refused for ever) in front of 10..30 lost slots inside it; 'fdshort' scenarios: a transient descriptor shortage makes accept() fail on the server, then heals; " +
 			"'twoserver' scenarios: two real servers hold the device, every original lost, round A re-sends 300..500 reports to one server while an overlapping round B is refused there and completes on the other; each server whose round completed is judged. " +
 			"Non-trivial = at least one required slot was absent on the server immediately before the final round and present after it (the recovery path was really exercised); " +
 			"distinct by (slot classes, per-slot loss history, sync fates, event).",
@@ -79,6 +80,10 @@ func main() {
 			c.Require("event.rotate", 1)
 			c.Require("event.restart", 1)
 			c.Require("dense_scenarios_judged", 20)
+			c.Require("cutoff_scenarios_judged", 3)
+			c.Require("cutoff.500_expired_then_recoverable_before_final_round", 3)
+			c.Require("fdshort_scenarios_judged", 2)
+			c.Require("event.fdshort_accept_failures_seen", 2)
 			c.Require("two_server.scenarios_judged", 3)
 			c.Require("two_server.round_b_reached_other_server_while_round_a_was_resending", 2)
 			c.Require("two_server.round_b_ended_on_the_other_server", 2)
@@ -112,6 +117,9 @@ func plan(tier string, seed int64) []run.Batch {
 		}
 		add("twoserver", 0, 2, 200)
 		add("twoserver", 2, 4, 200)
+		add("cutoff", 0, 2, 200)
+		add("cutoff", 2, 4, 200)
+		add("fdshort", 0, 3, 200)
 		x := int(uint64(seed)*2654435761%uint64(1<<(2*exhaustiveM))) &^ 63
 		for i := 0; i < 256; i += 64 {
 			add("exhaustive", (x+i)%(1<<(2*exhaustiveM)), (x+i)%(1<<(2*exhaustiveM))+64, 240)
@@ -126,6 +134,12 @@ func plan(tier string, seed int64) []run.Batch {
 	}
 	for i := 0; i < 60; i += 5 {
 		add("twoserver", i, i+5, 240)
+	}
+	for i := 0; i < 40; i += 5 {
+		add("cutoff", i, i+5, 240)
+	}
+	for i := 0; i < 40; i += 5 {
+		add("fdshort", i, i+5, 240)
 	}
 	for i := 0; i < 1<<(2*exhaustiveM); i += 64 {
 		add("exhaustive", i, i+64, 240)
@@ -396,12 +410,16 @@ func runScenario(sc *scenario, b run.Batch, r *ev.Result) (fatal bool) {
 	}
 	exh := sc.Kind == "exhaustive"
 	dense := sc.Kind == "dense"
+	cutoff := sc.Kind == "cutoff"
+	fdshort := sc.Kind == "fdshort"
 
 	// ---- server
 	if exh {
 		sc.Base = 0
 	} else if dense {
 		sc.Base = []uint32{0, 0, 2500, 7000}[rng.Intn(4)]
+	} else if cutoff {
+		sc.Base = 0
 	} else {
 		switch rng.Intn(3) {
 		case 0:
@@ -466,6 +484,33 @@ func runScenario(sc *scenario, b run.Batch, r *ev.Result) (fatal bool) {
 		classes := []string{"positive", "negative", "sentinel", "unparsable", "negative", "positive"}
 		for i := 0; i < exhaustiveM; i++ {
 			sc.Rows = append(sc.Rows, row{Slot: sc.Now0 - 3 + uint32(i), Class: classes[i], Text: genValue(rng, classes[i]), Group: 0})
+		}
+	} else if cutoff {
+		// A device that kept measuring while it was cut off for days: the server window lacks
+		// 500..600 slots the device has readings for that are OLDER than the acceptance range
+		// (the server silently refuses them, their bits stay 0 for ever) and, behind them,
+		// 10..30 slots inside the range. Nothing was ever sent (rows present at client start).
+		sc.Groups, sc.Decoys, sc.Event, sc.InitialG0 = 1, 0, "", true
+		sc.Now0 = O + 1100 + uint32(rng.Intn(1500))
+		sc.Now1 = sc.Now0
+		nExp := 500 + rng.Intn(101)
+		for i := 0; i < nExp; i++ {
+			cl := []string{"positive", "negative", "sentinel", "unparsable"}[pick(uint64(rng.Int63()), 40, 30, 15, 15)]
+			sc.Rows = append(sc.Rows, row{Slot: sc.Now0 - 433 - uint32(i), Class: cl, Text: genValue(rng, cl)})
+		}
+		used := map[uint32]bool{}
+		for k := 10 + rng.Intn(21); k > 0; k-- {
+			t := sc.Now0 - uint32(rng.Intn(430))
+			if used[t] {
+				continue
+			}
+			used[t] = true
+			cl := []string{"positive", "negative", "sentinel", "unparsable"}[pick(uint64(rng.Int63()), 40, 30, 15, 15)]
+			sc.Rows = append(sc.Rows, row{Slot: t, Class: cl, Text: genValue(rng, cl)})
+		}
+		sort.Slice(sc.Rows, func(i, j int) bool { return sc.Rows[i].Slot < sc.Rows[j].Slot })
+		if rng.Intn(2) == 0 {
+			sc.Rounds = [][]TCPFate{{{Kind: "pass"}}} // one more completed round whose retransmissions are partly lost
 		}
 	} else if dense {
 		// 16..40 consecutive slots starting at a multiple of 8 of the window (or 1 / 7 past it,
@@ -605,6 +650,11 @@ func runScenario(sc *scenario, b run.Batch, r *ev.Result) (fatal bool) {
 			}
 			sc.Rounds = append(sc.Rounds, fates)
 		}
+	}
+	if fdshort {
+		// generated like a random scenario; the event is a transient descriptor shortage on the server
+		sc.Event, sc.LateGroup, sc.LateOrig = "fdshort", false, false
+		sc.Now1 = sc.Now0 + uint32(rng.Intn(40))
 	}
 	drv.SetClock(sc.Now0)
 	minSlot, latest := sc.Rows[0].Slot, sc.Rows[0].Slot
@@ -779,6 +829,22 @@ func runScenario(sc *scenario, b run.Batch, r *ev.Result) (fatal bool) {
 	}
 	x.proxy.SetPlan(nil)
 
+	// ---- transient descriptor shortage on the server
+	if sc.Event == "fdshort" {
+		if err := x.relay.Barrier(); err != nil {
+			return inconc("%v", err)
+		}
+		x.trace("descriptor shortage: accept() fails on the server while a peer connects, then it heals")
+		hit, err := descriptorShortage(w.TCP, func() int { return bytes.Count(w.ReadFile("server.log"), []byte("Failed to accept connection")) })
+		if err != nil {
+			return inconc("descriptor shortage set-up: %v", err)
+		}
+		if hit > 0 {
+			r.Count("event.fdshort_accept_failures_seen", 1)
+		}
+		r.Count("event.fdshort", 1)
+	}
+
 	// ---- rotation / restart
 	if strings.Contains(sc.Event, "restart") {
 		x.trace("server goes down")
@@ -840,8 +906,20 @@ func runScenario(sc *scenario, b run.Batch, r *ev.Result) (fatal bool) {
 	if err := x.delivered(); err != nil {
 		return inconc("before final round: %v", err)
 	}
+	gone := func(what string) bool {
+		if sc.Event == "fdshort" && w.S != nil && !goroutineIn("server.(*GCAServer).threadedListenForSyncRequests") {
+			// certain, not a matter of timing: nobody accepts sync connections any more
+			r.Violationf("sync-service-gone-after-descriptor-shortage", x.replay(nil),
+				"after a transient descriptor shortage healed, %s and no goroutine of the process is in threadedListenForSyncRequests any more: the listening socket is open, nobody accepts - no sync round can ever complete again, lost reports are never recovered", what)
+			return true
+		}
+		return false
+	}
 	pre, refused, err := x.rawSync()
 	if err != nil || refused {
+		if err != nil && gone("three raw sync requests went unanswered") {
+			return false
+		}
 		return inconc("raw sync before the final round: refused=%v err=%v", refused, err)
 	}
 	// The server gives a sync connection 2.5 s of wall time; on a starved machine a
@@ -859,6 +937,9 @@ func runScenario(sc *scenario, b run.Batch, r *ev.Result) (fatal bool) {
 		}
 		r.Count("final_round_repeated", 1)
 		if try == 3 {
+			if gone("three fault-free sync rounds in a row failed") {
+				return false
+			}
 			return inconc("three fault-free sync rounds in a row did not complete")
 		}
 	}
@@ -890,6 +971,24 @@ func runScenario(sc *scenario, b run.Batch, r *ev.Result) (fatal bool) {
 	r.Count("scenarios_judged", 1)
 	if exh {
 		r.Count("exhaustive_scenarios_judged", 1)
+	}
+	if cutoff {
+		r.Count("cutoff_scenarios_judged", 1)
+		exp, rec := 0, 0
+		for i, v := range hist {
+			if t := int64(horigin) + int64(i); v >= 2 && t < int64(now)-432 {
+				exp++
+			} else if v >= 2 && !pre.Bit(int(t-int64(pre.Offset))) && pre.Offset == snap.Offset {
+				rec++
+			}
+		}
+		r.Max("max.cutoff_expired_missing_slots", int64(exp))
+		if exp >= 500 && rec > 0 {
+			r.Count("cutoff.500_expired_then_recoverable_before_final_round", 1)
+		}
+	}
+	if fdshort {
+		r.Count("fdshort_scenarios_judged", 1)
 	}
 	if dense {
 		r.Count("dense_scenarios_judged", 1)
@@ -1006,7 +1105,11 @@ func child(b run.Batch, r *ev.Result) {
 			runTwoServer(sc, b, r)
 			continue
 		}
-		if b.Kind == "dense" {
+		if b.Kind == "cutoff" {
+			sc.Seed = b.Seed*1000003 + 400000 + int64(i)
+		} else if b.Kind == "fdshort" {
+			sc.Seed = b.Seed*1000003 + 450000 + int64(i)
+		} else if b.Kind == "dense" {
 			sc.Seed = b.Seed*1000003 + 300000 + int64(i)
 		} else if b.Kind == "exhaustive" {
 			sc.Seed = b.Seed*1000003 + 7777
